@@ -332,7 +332,15 @@ def engine_vcat(c, *arrays):
         seq = arrays[0].seq
         probe = seq.elem(cur().fresh_index(seq.n, "vcp"))
         if isinstance(probe, Arr) and not probe.is_scalar and not (T.is_const(probe.n) and T.cval(probe.n) == 1):
-            raise Unsupported("vcat of a symbolic number of vectors")
+            # a stack of a symbolic number of vectors of symbolic lengths: nothing is modelled but that
+            # it is some vector (over-approximation: anything proved about it holds for the real one;
+            # an equation that needs its entries is refuted, without a concrete input)
+            L = T.fresh("n_stacked", T.INT)
+            cur().axiom(T.le(0, L))
+            f = T.uf(f"stacked!{L.uid}", [T.INT], T.REAL)
+            from pyvc.values import mk_vec
+
+            return mk_vec(c.dialect, kind, L, lambda k: f(k), "fresh")
         return A.concat(c.dialect, seq, kind)
     for x in arrays:
         if not (isinstance(x, Arr) or A.is_num(x)):
